@@ -326,8 +326,10 @@ class Check:
         ev["coverage"].update(self.extra)
         if self.known_hits:
             ev["coverage"]["known_findings_hit"] = len(self.known_hits)
-        os.makedirs(os.path.join(VERIF, "evidence"), exist_ok=True)
-        with open(os.path.join(VERIF, "evidence", self.pid + ".json"), "w") as f:
+        # runs against a scratch tree (self-tests on seeded changes) must not overwrite the evidence of /repo
+        evdir = os.path.join(VERIF, "evidence") if REPO == "/repo" else os.path.join(tempfile.gettempdir(), "verif-selftest-evidence")
+        os.makedirs(evdir, exist_ok=True)
+        with open(os.path.join(evdir, self.pid + ".json"), "w") as f:
             json.dump(ev, f, indent=1, default=str)
         seen = set()
         for kf, v in self.known_hits:
@@ -336,7 +338,7 @@ class Check:
                 n = sum(1 for k, _ in self.known_hits if k["id"] == kf["id"])
                 print("KNOWN-FINDING: property=%s %s (%s; %d occurrence(s) in this run)" % (self.pid, kf["what"], kf["id"], n))
         if self.violations:
-            d = os.path.join(VERIF, "replays", self.pid)
+            d = os.path.join(VERIF if REPO == "/repo" else os.path.join(tempfile.gettempdir(), "verif-selftest-evidence"), "replays", self.pid)
             shutil.rmtree(d, True)
             os.makedirs(d, exist_ok=True)
             shown = set()
